@@ -8,10 +8,20 @@
  *   script: '.'-separated events delivered one per select() wake-up:
  *           c<hex>         these bytes arrive on descriptor 0 (one read)
  *           w<ss><hex>     the child of slot ss writes these bytes (<=128; skipped if the slot has no live child)
- *           x<ss><wwww>    the child of slot ss exits with wait status wwww; SIGCHLD handler runs, then EOF on its pipe
- *           at the end of the script: EOF on descriptor 0, then every remaining child exits with status 0, lowest slot first
+ *           x<ss><wwww>    the child of slot ss exits with wait status wwww; SIGCHLD handler runs (signal delivered before
+ *                          select() looks at the descriptors), then EOF on its pipe in the same wake-up
+ *           k<ss><wwww>    the child of slot ss exits with wait status wwww while the spawner sits in select(): the SIGCHLD
+ *                          handler runs and select() returns -1/EINTR; the EOF on the child's pipe is NOT seen yet
+ *                          (skipped unless the slot has a live child)
+ *           z<ss>          EOF on the pipe of slot ss (skipped unless the slot's child has been reaped by an earlier k and
+ *                          the slot has not been reported yet: the spawner holds a write end until the handler has run)
+ *           e              EOF on descriptor 0 (once; later c and e events are skipped: nothing can be read after EOF)
+ *           (w is delivered to any slot in use, reaped or not: a reaped child's output may still sit in the pipe)
+ *           at the end of the script: EOF on descriptor 0 unless already seen, then, lowest slot first, every slot still in
+ *           use is finished: a live child exits with status 0 (as x), a reaped one gets its EOF (as z)
  *   trace : ','-separated: o<path-hex> open_read(path) | f<ss>:<sender-hex>:<recip-hex>:<at> spawn() called and child forked
- *           | W<hex> bytes written to descriptor 1 (adjacent writes merged) | e<code>
+ *           | W<hex> bytes written to descriptor 1 (adjacent writes merged) | q<n> the program called _exit after the
+ *           harness had consumed n events of the script (delivered or skipped) | e<code>
  *           (a trace that does not end in e<code> means the program was aborted by a sanitizer while running this case) */
 #include "hcommon.h"
 #include "substdio.h"
@@ -98,7 +108,7 @@ static const unsigned char *plan_p; static size_t plan_n, plan_pos; static int c
 static const char *sc_p;                 /* rest of the script */
 static unsigned char pend[2048]; static int pend_n, pend_fd;   /* what the next read() of pend_fd returns */
 static int wait_pid_v, wait_stat_v;
-static int npipes, nforks, stdin_eof;
+static int npipes, nforks, stdin_eof, nops;
 
 static ssize_t h_write(int fd, const void *buf, size_t len) { hbuf_add(&wbuf, buf, len); return len; }
 static ssize_t h_read(int fd, void *buf, size_t len) {
@@ -139,38 +149,57 @@ static int h_wait_nohang(int *wstat) {
 }
 
 static int hexv(int c) { return c <= '9' ? c - '0' : (c | 32) - 'a' + 10; }
-static int live(int i) { return i >= 0 && i < auto_spawn && d[i].used && d[i].pid; }
+static int inuse(int i) { return i >= 0 && i < auto_spawn && d[i].used; }
+static int live(int i) { return inuse(i) && d[i].pid; }
+static int reaped(int i) { return inuse(i) && !d[i].pid; }
 static void child_exit(int slot, int wstat, fd_set *r) {
   wait_pid_v = d[slot].pid; wait_stat_v = wstat;
   sigchld();
   pend_fd = d[slot].fdin; pend_n = 0; FD_SET(pend_fd, r);
 }
+static void pipe_eof(int slot, fd_set *r) { pend_fd = d[slot].fdin; pend_n = 0; FD_SET(pend_fd, r); }
 static int h_select(int n, fd_set *r, fd_set *w, fd_set *x, struct timeval *t) {
   fd_set asked = *r;
   FD_ZERO(r);
   for (;;) {
-    if (!*sc_p) {                     /* script exhausted: close descriptor 0, then reap children */
+    if (!*sc_p) {                     /* script exhausted: close descriptor 0, then finish every slot still in use */
       if (!stdin_eof) { stdin_eof = 1; pend_fd = 0; pend_n = 0; FD_SET(0, r); break; }
-      int i; for (i = 0; i < auto_spawn; i++) if (live(i)) break;
+      int i; for (i = 0; i < auto_spawn; i++) if (inuse(i)) break;
       if (i == auto_spawn) { fprintf(stderr, "harness: select with nothing to wait for\n"); abort(); }
-      child_exit(i, 0, r); break;
+      if (live(i)) child_exit(i, 0, r); else pipe_eof(i, r);
+      break;
     }
     char op = *sc_p++;
     if (op == '.') continue;
+    nops++;
     if (op == 'c') {
       pend_n = 0; while (*sc_p && *sc_p != '.') { pend[pend_n++] = hexv(sc_p[0]) * 16 + hexv(sc_p[1]); sc_p += 2; }
+      if (stdin_eof) continue;
       pend_fd = 0; FD_SET(0, r); break;
+    }
+    if (op == 'e') {
+      if (stdin_eof) continue;
+      stdin_eof = 1; pend_fd = 0; pend_n = 0; FD_SET(0, r); break;
     }
     int slot = hexv(sc_p[0]) * 16 + hexv(sc_p[1]); sc_p += 2;
     if (op == 'w') {
       pend_n = 0; while (*sc_p && *sc_p != '.') { pend[pend_n++] = hexv(sc_p[0]) * 16 + hexv(sc_p[1]); sc_p += 2; }
-      if (!live(slot) || pend_n == 0) continue;
+      if (!inuse(slot) || pend_n == 0) continue;
       pend_fd = d[slot].fdin; FD_SET(pend_fd, r); break;
     }
-    if (op == 'x') {
+    if (op == 'x' || op == 'k') {
       int ws = 0; for (int k = 0; k < 4; k++) ws = ws * 16 + hexv(*sc_p++);
       if (!live(slot)) continue;
-      child_exit(slot, ws, r); break;
+      if (op == 'x') { child_exit(slot, ws, r); break; }
+      /* the signal interrupts select(): handler, then -1/EINTR; no descriptor is reported */
+      wait_pid_v = d[slot].pid; wait_stat_v = ws;
+      sigchld();
+      errno = EINTR;
+      return -1;
+    }
+    if (op == 'z') {
+      if (!reaped(slot)) continue;
+      pipe_eof(slot, r); break;
     }
     fprintf(stderr, "harness: bad script op %c\n", op); abort();
   }
@@ -200,7 +229,7 @@ static void h_report(substdio *ss, int wstat, char *s, int len) {
 static void one(const char *script, const unsigned char *plan, size_t pn) {
   fprintf(h_out, "S %c ", KIND); h_hex(plan, pn); fprintf(h_out, " %s ", *script ? script : "-");
   plan_p = plan; plan_n = pn; plan_pos = 0; cur_plan = 0;
-  sc_p = script; pend_fd = -1; wait_pid_v = 0; npipes = nforks = stdin_eof = 0;
+  sc_p = script; pend_fd = -1; wait_pid_v = 0; npipes = nforks = stdin_eof = nops = 0;
   flagwriting = 1; flagreading = 1; stage = 0; flagabort = 0; delnum = 0;
   first_ev = 1; wbuf.n = 0;
   static char *av[] = { "qmail-xspawn", "./Mailbox", 0 };
@@ -208,7 +237,7 @@ static void one(const char *script, const unsigned char *plan, size_t pn) {
   int rc;
   if (setjmp(h_jb) == 0) { rc = spawn_main(2, av); } else rc = h_exitcode;
   h_exit_armed = 0;
-  ev_flush(); if (!first_ev) fputc(',', h_out); fprintf(h_out, "e%d\n", rc);
+  ev_flush(); if (!first_ev) fputc(',', h_out); fprintf(h_out, "q%d,e%d\n", nops, rc);
   if (d) { for (int i = 0; i < auto_spawn; i++) if (d[i].output.s) { free(d[i].output.s); d[i].output.s = 0; } free(d); d = 0; }
 }
 
@@ -222,6 +251,9 @@ static void s_out(int slot, const unsigned char *p, size_t n) {
   while (n) { size_t k = n > 128 ? 128 : n; char t[8]; s_sep(); sprintf(t, "w%02x", slot & 255); hbuf_add(&sb, t, 3); s_hex(p, k); p += k; n -= k; }
 }
 static void s_exit(int slot, int ws) { char t[16]; s_sep(); sprintf(t, "x%02x%04x", slot & 255, ws & 0xffff); hbuf_add(&sb, t, 7); }
+static void s_reap(int slot, int ws) { char t[16]; s_sep(); sprintf(t, "k%02x%04x", slot & 255, ws & 0xffff); hbuf_add(&sb, t, 7); }
+static void s_peof(int slot) { char t[16]; s_sep(); sprintf(t, "z%02x", slot & 255); hbuf_add(&sb, t, 3); }
+static void s_eof(void) { s_sep(); hbuf_add(&sb, "e", 1); }
 static const char *s_str(void) { hbuf_add(&sb, "", 1); sb.n--; return (const char *)sb.p; }
 
 static size_t mkcmd(unsigned char *b, int delnum, const char *mid, size_t ml, const char *snd, const char *rcp) {
@@ -303,8 +335,33 @@ int main(int argc, char **argv) {
     s_reset(); s_cmd(cb, n); s_out(0, (const unsigned char *)"did 1+0+0\n\0more", 15); s_exit(0, ws < 256 ? ws << 8 : ws - 256);
     one(s_str(), 0, 0);
   }
+  /* (5) end of input with deliveries in flight: after a first command (delivery 0) every sequence of up to <level>+1 events
+   *     over { second command (delivery 1), EOF on descriptor 0, and for each of the two slots: child reaped while in select
+   *     (k), EOF on its pipe (z), both in one wake-up (x); output of child 0 } - every order of end of input, death of a
+   *     child, and the read that produces its report, relative to the exit test at the top of the main loop */
+  {
+    static const char *const evs9[9] = { 0, "e", "k000000", "z00", "x006400", "k016f00", "z01", "x010000", "w004b6f6b0a00" };
+    unsigned char c2[64];
+    size_t n1 = mkcmd(cb, 0, "0/77", 4, "s@h", "r@h");
+    size_t n2 = mkcmd(c2, 1, "1/78", 4, "", "q@h");
+    for (int len = 0; len <= level + 1; len++) {
+      uint64_t total = 1; for (int i = 0; i < len; i++) total *= 9;
+      for (uint64_t k = 0; k < total; k++, id++) {
+        if ((int)(id % nshards) != shard) continue;
+        s_reset(); s_cmd(cb, n1);
+        uint64_t v = k;
+        for (int i = 0; i < len; i++, v /= 9) {
+          if (v % 9 == 0) s_cmd(c2, n2);
+          else { s_sep(); hbuf_add(&sb, evs9[v % 9], strlen(evs9[v % 9])); }
+        }
+        one(s_str(), 0, 0);
+      }
+    }
+  }
   /* (4) seeded random sessions: several commands (mostly valid) cut into arbitrary reads, truncated at end of input,
-   *     oversized fields, re-used delivery numbers, children writing hostile / long output and exiting in any order */
+   *     oversized fields, re-used delivery numbers, children writing hostile / long output and exiting in any order -
+   *     reaped and reported in one wake-up (x) or reaped first (k) with the EOF on the pipe (z) arriving any time later,
+   *     or only at the end; in a third of the sessions descriptor 0 reaches EOF somewhere in the middle (e) */
   h_seed(seed * 1000003ull + shard * 7919 + (KIND == 'l'));
   for (int r = 0; r < nrandom; r++) {
     if ((r % nshards) != shard) continue;
@@ -312,6 +369,9 @@ int main(int argc, char **argv) {
     int ncmd = 1 + h_below(6), pn = h_below(3) ? 0 : 1 + h_below(6);
     for (int i = 0; i < pn; i++) pl[i] = h_below(9);
     int used[8], nu = 0;
+    int zs[8], nz = 0;                                    /* reaped, EOF still to come */
+    int eof_at = h_below(3) ? -1 : (int)h_below(ncmd + 1);  /* after how many flushes descriptor 0 is closed */
+    int nflush = 0;
     s_reset();
     for (int c = 0; c < ncmd; c++) {
       int dn = h_below(6) ? (int)h_below(6) : delnums[h_below(NEL(delnums))];
@@ -330,6 +390,8 @@ int main(int argc, char **argv) {
       if (!h_below(3)) {   /* flush the commands so far (in random pieces), then let some children talk */
         size_t pos = 0; while (pos < sn) { size_t k = 1 + h_below(h_below(4) ? 1024 : 40); if (k > sn - pos) k = sn - pos; s_cmd(stream + pos, k); pos += k; }
         sn = 0;
+        int eof_now = (nflush++ == eof_at), eof_first = h_below(2);
+        if (eof_now && eof_first) s_eof();
         int acts = h_below(4);
         for (int a = 0; a < acts && nu; a++) {
           int slot = used[h_below(nu)];
@@ -340,11 +402,31 @@ int main(int argc, char **argv) {
           else if (ok == 5) { ol = 2900 + h_below(400); for (size_t i = 0; i < ol; i++) o[i] = h_below(30) ? 'a' + h_below(26) : '\n'; }
           else { ol = h_below(300); for (size_t i = 0; i < ol; i++) o[i] = h_below(20) ? 32 + h_below(95) : h_below(256); o[ol++] = 0; }
           s_out(slot, o, ol);
-          if (h_below(3)) s_exit(slot, h_below(4) ? 0 : h_below(3) ? (int)(h_below(256) << 8) : (int)h_below(128));
+          if (h_below(3)) {
+            int ws = h_below(4) ? 0 : h_below(3) ? (int)(h_below(256) << 8) : (int)h_below(128);
+            int how = h_below(4);
+            if (how < 2) s_exit(slot, ws);
+            else { s_reap(slot, ws); if (how == 2) s_peof(slot); else if (nz < 8) zs[nz++] = slot; }
+          }
+          if (nz && !h_below(3)) { int q = h_below(nz); s_peof(zs[q]); zs[q] = zs[--nz]; }
         }
+        if (eof_now && !eof_first) s_eof();
       }
     }
     { size_t pos = 0; while (pos < sn) { size_t k = 1 + h_below(h_below(4) ? 1024 : 40); if (k > sn - pos) k = sn - pos; s_cmd(stream + pos, k); pos += k; } }
+    if (eof_at >= 0) {   /* end of input, then some of the children die / are reported in a random order; the rest at the end of the script */
+      if (h_below(4)) s_eof();
+      for (int a = h_below(5); a > 0 && nu; a--) {
+        int slot = used[h_below(nu)], ws = h_below(3) ? 0 : (int)(h_below(256) << 8);
+        switch (h_below(4)) {
+          case 0: s_exit(slot, ws); break;
+          case 1: s_reap(slot, ws); if (nz < 8) zs[nz++] = slot; break;
+          case 2: if (nz) { int q = h_below(nz); s_peof(zs[q]); zs[q] = zs[--nz]; } break;
+          default: s_out(slot, (const unsigned char *)"Kfine\n", 7); break;
+        }
+      }
+      if (!h_below(3)) s_eof();
+    }
     one(s_str(), pl, pn);
   }
   fflush(h_out);
